@@ -772,6 +772,14 @@ func (l *Loader) mergeResult(fetchItem *FetchItem, res *result, items []*astjson
 		}
 	}
 
+	// A single entity fetch sends exactly one representation, so `_entities` must hold exactly one
+	// item, as for batch fetches: [null] is "entity not found", [] or extra items is an invalid response.
+	if res.multi == nil && fetchItem.Fetch != nil && fetchItem.Fetch.FetchKind() == FetchKindEntity {
+		if entities := response.Get("data", "_entities"); entities != nil && entities.Type() == astjson.TypeArray && len(entities.GetArray()) != 1 {
+			return l.renderErrorsFailedToFetch(fetchItem, res, fmt.Sprintf(invalidBatchItemCount, 1, len(entities.GetArray())))
+		}
+	}
+
 	// Check if data needs processing.
 	if res.postProcessing.SelectResponseDataPath != nil && astjson.ValueIsNull(responseData) {
 		// First check if this is actually an entity null fetch, instead of a data null fetch.
